@@ -412,6 +412,9 @@ def run(cx, rep):
                 ok2 = ok2 and len(paired) >= 1
             rep.ob("C15.4", "%s.describe/single-declaration" % cn, ok, "%s.describe must assign ctx.definitions[name] only where it is known to be absent (`== null`)" % cn, mod.loc(fn))
             rep.ob("C15.4", "%s.describe/recursion-guard" % cn, ok2, "%s.describe must describe the target of a shared reference only when the name is not being described, and mark it while it is" % cn, mod.loc(fn))
+    # ---------------------------------------------------------------- C15.10
+    rep.rule("C15.10", "template chunks are stored cooked and printed escaped")
+    template_chunk_rule(cx, rep, "C15.10")
     # ---------------------------------------------------------------- C15.8
     rep.rule("C15.8", "describe methods read every constructor argument they read on the reviewed tree")
     ts_common.field_matrix_rule(cx, rep, "C15.8", ['describeTypeExpr', 'describeChildren', 'describe'])
@@ -468,3 +471,67 @@ def describe_children_rule(cx, rep, fam, mod):
                "%s.describeChildren does not yield this.%s although describe() descends into it: references reached only through it are not counted, so shared named types are inlined instead of declared once and recursive ones are described without a cycle guard" % (cn, sorted(missing)),
                mod.loc(fn), sample={"class": cn, "children_described": sorted(read), "children_yielded": sorted(yielded)})
     rep.floor("C15.5", "classes with child validators", n, 8)
+
+
+def template_chunk_rule(cx, rep, rid):
+    """A template literal type's chunks are STORED as the text they stand for (swc's `cooked`: `\\\\` is one backslash),
+    because the regex the validator matches with is built from them; describe() therefore has to turn a chunk back
+    into template SOURCE - escape backslash, backtick and `${` - before putting it between backticks.  Storing the raw
+    source text instead makes the validator demand the escape characters themselves (repaired by 054d128); storing
+    cooked text and printing it verbatim makes the description a different type or a syntax error.  Decided:
+      (a) in the frontend the chunk text is read from `TplElement.cooked`; `raw` is read only in a function that also
+          reads `cooked` (the fallback for chunks without a cooked form);
+      (b) the function that prints a template literal type (it formats between backticks) passes StringConst chunks
+          through replacements of the backslash, the backtick and `${`."""
+    F = cx.rs
+    cooked_fns, raw_fns = set(), {}
+    for g, t in F.hir.items():
+        f = F.fns.get(g)
+        if f is None or "/src/frontend/" not in (f.file or ""):
+            continue
+        for x in hwalk(t["body"]):
+            if x["k"] == "Field" and (x.get("adt") or "").endswith("TplElement"):
+                if x["name"] == "cooked":
+                    cooked_fns.add(g)
+                elif x["name"] == "raw":
+                    raw_fns.setdefault(g, x)
+    rep.ob(rid, "frontend/reads-cooked", bool(cooked_fns),
+           "the frontend never reads the cooked text of a template chunk: chunks keep their escape characters and the validator's regex demands them", None,
+           sample={"functions_reading_cooked": sorted(cooked_fns)})
+    for g, x in sorted(raw_fns.items()):
+        rep.ob(rid, "frontend/raw-only-as-fallback/%s" % g.rsplit("::", 1)[-1], g in cooked_fns,
+               "%s takes the RAW source text of a template chunk (escape sequences unresolved) without consulting its cooked text: `C:\\\\\\\\${string}` then only matches values with two backslashes" % g,
+               "%s:%s" % (F.fns[g].file, x["line"]), sample={"fn": g})
+    n = 0
+    for g, t in sorted(F.hir.items()):
+        f = F.fns.get(g)
+        if f is None or not (f.file or "").endswith("ast/runtype.rs") or "String" not in (f.output or ""):
+            continue
+        lits = {x.get("v") for x in hwalk(t["body"]) if x["k"] == "Lit" and x.get("lit") in ("str", "char")}
+        arms = [a for m in hwalk(t["body"]) if m["k"] == "Match" for a in m["arms"]
+                if (a["pat"].get("def") or "").endswith("TplLitTypeItem::StringConst") or any((p.get("def") or "").endswith("TplLitTypeItem::StringConst") for p in hwalk(a["pat"]))]
+        prints_template = any("${string}" in (v or "") for v in lits)
+        if not prints_template or not arms:
+            continue
+        for a in arms:
+            # only the arm that handles a chunk inside a longer template (the single-constant form prints a string literal)
+            if any(p["k"] == "P.Slice" for p in hwalk(a["pat"])):
+                continue
+            n += 1
+            reps = set()
+            for x in hwalk(a["body"]):
+                if x["k"] == "MethodCall" and x["method"] == "replace" and x["args"] and x["args"][0]["k"] == "Lit":
+                    reps.add(x["args"][0].get("v"))
+                if x["k"] in ("Call", "MethodCall"):
+                    cal = x.get("callee") if x["k"] == "Call" else (x.get("resolved") or x.get("callee"))
+                    tg = F._callee_gid(f.crate, cal) if cal else None
+                    if tg in F.hir and tg != g:
+                        for y in hwalk(F.hir[tg]["body"]):
+                            if y["k"] == "MethodCall" and y["method"] == "replace" and y["args"] and y["args"][0]["k"] == "Lit":
+                                reps.add(y["args"][0].get("v"))
+            need = {"\\", "`", "${"}
+            missing = sorted(need - reps)
+            rep.ob(rid, "%s/chunk-escaped" % g.rsplit("::", 1)[-1], not missing,
+                   "%s prints a template chunk between backticks without escaping %s: a chunk that contains one of them is printed as different template source (another type, an interpolation, or a syntax error), so the description does not compile back to the same validator" % (g, missing),
+                   "%s:%s" % (f.file, a["line"]), sample={"fn": g, "escapes": sorted(reps)})
+    rep.floor(rid, "chunk arms of the template printer", n, 1)
